@@ -23,6 +23,8 @@ type c10Case struct {
 	Text     string   `json:"text"`
 	Relayout string   `json:"relayout"`
 	Sites    []string `json:"sites,omitempty"` // grammatical position class of each comment, in order
+	// FileMode: also check both laws through `format -f` on files (through the built CLI)
+	FileMode bool `json:"file_mode,omitempty"`
 }
 
 // commentScope qualifies comment-related classes: failures caused by comments at positions an
@@ -64,6 +66,34 @@ func evalC10(k c10Case) []pbt.Violation {
 			vs = append(vs, pbt.Violation{Signature: "format-rejects-valid", Detail: "formatter rejects the re-layout: " + clip(gerr.Error(), 200)})
 		case g1 != f1:
 			vs = append(vs, pbt.Violation{Signature: "layout-dependent:" + scoped(diffClass(f1, g1), k), Detail: "format(relayout(x)) != format(x): " + firstLineDiff(f1, g1)})
+		}
+	}
+	if k.FileMode && len(vs) == 0 && cli.Bin() != "" {
+		// the same two laws through `format -f`, which rewrites a file in place
+		viaFile := func(text string, passes int) (string, bool) {
+			dir := cli.Scratch("c10f")
+			defer os.RemoveAll(dir)
+			fp := filepath.Join(dir, "f.dsl")
+			_ = os.WriteFile(fp, []byte(text), 0o644)
+			for i := 0; i < passes; i++ {
+				if r := cli.Run(dir, 60*time.Second, nil, nil, cli.Bin(), "format", "-f", fp); r.Exit != 0 {
+					return "", false
+				}
+			}
+			b, err := os.ReadFile(fp)
+			return string(b), err == nil
+		}
+		once, ok1 := viaFile(k.Text, 1)
+		twice, ok2 := viaFile(k.Text, 2)
+		switch {
+		case !ok1 || !ok2:
+			vs = append(vs, pbt.Violation{External: true, Signature: "file-mode-fails-on-valid", Detail: "`format -f` exits non-zero on a text the formatter accepts"})
+		case once != twice:
+			vs = append(vs, pbt.Violation{External: true, Signature: "file-mode-not-idempotent", Detail: "`format -f` twice != once: " + firstLineDiff(once, twice)})
+		case k.Relayout != "":
+			if re, ok := viaFile(k.Relayout, 1); ok && re != once {
+				vs = append(vs, pbt.Violation{External: true, Signature: "file-mode-layout-dependent", Detail: "`format -f` of the re-layout differs: " + firstLineDiff(once, re)})
+			}
 		}
 	}
 	return vs
@@ -169,6 +199,10 @@ func TestC10(t *testing.T) {
 		// the re-layout keeps tokens and comment attachment and redraws every gap
 		relay, _ := dsl.Layout(tc.Toks, dsl.RandLayout{T: rt, Label: "relay", Wild: true})
 		k := c10Case{Text: tc.Text, Relayout: relay, Sites: tc.Sites}
+		if rapid.IntRange(0, 15).Draw(rt, "file_mode") == 0 && !strings.Contains(tc.Text, "\x00") {
+			k.FileMode = true
+			c.Class("file-mode-through-cli")
+		}
 		c.Eval()
 		c.Class("origin:" + tc.Origin)
 		nontrivial := tc.NComments > 0 || hasLongList(tc.Toks) || nestedInline(tc.Toks)
